@@ -275,13 +275,20 @@ fn dump_const<'tcx>(tcx: TyCtxt<'tcx>, did: rustc_hir::def_id::DefId) -> J {
         Ok(v) => const_value_json(tcx, v, ty),
         Err(_) => J::Null,
     };
-    J::O(vec![
+    let mut o = vec![
         ("path", J::s(path_str(tcx, did))),
         ("ty", J::s(ty_str(ty))),
         ("file", J::s(file_of(tcx, tcx.def_span(did)))),
         ("span", span_json(tcx, tcx.def_span(did))),
         ("value", val),
-    ])
+    ];
+    // the initialiser as written (typed HIR): what a const of references evaluates to is not visible in its bytes
+    if let Some(ldid) = did.as_local() {
+        if let Some(body) = tcx.hir_maybe_body_owned_by(ldid) {
+            o.push(("hir", hirdump::dump_body(tcx, ldid, body)));
+        }
+    }
+    J::O(o)
 }
 
 fn dump_fn<'tcx>(tcx: TyCtxt<'tcx>, ldid: rustc_hir::def_id::LocalDefId, kind: DefKind) -> J {
